@@ -25,9 +25,9 @@ pub enum StepIn {
     /// deliver Event::Run(p) (Core/Bridge) or build program p (direct hosts)
     Run { p: u32 },
     Noop,
-    Resolve { o: [u32; 3], val: u32 },
-    Drop { o: [u32; 3] },
-    Abort { c: [u32; 2] },
+    Resolve { o: [u32; 3], val: u32, #[serde(default)] nt: bool },
+    Drop { o: [u32; 3], #[serde(default)] nt: bool },
+    Abort { c: [u32; 2], #[serde(default)] nt: bool },
     /// bridge only: malformed bytes as an event / as the response to request o
     BadEvent { bytes: Vec<u8> },
     BadResponse { o: [u32; 3], bytes: Vec<u8> },
@@ -48,6 +48,10 @@ pub struct Policy {
     pub p_noop: f64,
     #[serde(default)]
     pub p_run: f64,
+    /// direct host: probability that an action is NOT followed by the inspection calls, so that
+    /// several wake-ups are delivered before the command next settles
+    #[serde(default)]
+    pub p_batch: f64,
     /// bridge hosts: probability of offering malformed bytes (as an event or as a response)
     #[serde(default)]
     pub p_bad: f64,
@@ -116,6 +120,8 @@ pub trait Host {
     fn can_drop(&self) -> bool {
         false
     }
+    /// direct host: skip the inspection calls after the next action
+    fn set_notake(&mut self, _on: bool) {}
     fn abortable(&self) -> Vec<[u32; 2]>;
     /// bridge only: (valid encodings of a few events, valid encoding of a response value)
     fn seeds(&self) -> Option<(Vec<Vec<u8>>, Vec<u8>)> {
@@ -134,13 +140,18 @@ pub struct Direct {
     ctx: Arc<CaseCtx>,
     cmd: Option<Cmd_>,
     held: HashMap<[u32; 3], Request<VOp>>,
+    notake: bool,
 }
 
 impl Direct {
     pub fn new(ctx: Arc<CaseCtx>) -> Self {
-        Direct { ctx, cmd: None, held: HashMap::new() }
+        Direct { ctx, cmd: None, held: HashMap::new(), notake: false }
     }
     fn take(&mut self, mut line: Value) -> Obs {
+        if self.notake && line["e"] != "start" {
+            line.as_object_mut().unwrap().insert("notake".into(), json!(true));
+            return Obs { line, new_ops: vec![], kinds: vec![] };
+        }
         let cmd = self.cmd.as_mut().unwrap();
         let effs: Vec<Effect> = cmd.effects().collect();
         let evs: Vec<Event> = cmd.events().collect();
@@ -187,6 +198,9 @@ impl Host for Direct {
     }
     fn can_drop(&self) -> bool {
         true
+    }
+    fn set_notake(&mut self, on: bool) {
+        self.notake = on;
     }
     fn abortable(&self) -> Vec<[u32; 2]> {
         let mut v: Vec<_> = self.ctx.aborts.lock().unwrap().keys().map(|k| [k.0, k.1]).collect();
@@ -649,9 +663,24 @@ pub fn run_case(case: &Case) -> Vec<Value> {
         let r = catch_unwind(AssertUnwindSafe(|| match step {
             StepIn::Run { p } => Some(host.run(*p)),
             StepIn::Noop => host.noop(),
-            StepIn::Resolve { o, val } => host.resolve(*o, *val),
-            StepIn::Drop { o } => host.drop_req(*o),
-            StepIn::Abort { c } => host.abort(*c),
+            StepIn::Resolve { o, val, nt } => {
+                if *nt {
+                    host.set_notake(true);
+                }
+                host.resolve(*o, *val)
+            }
+            StepIn::Drop { o, nt } => {
+                if *nt {
+                    host.set_notake(true);
+                }
+                host.drop_req(*o)
+            }
+            StepIn::Abort { c, nt } => {
+                if *nt {
+                    host.set_notake(true);
+                }
+                host.abort(*c)
+            }
             StepIn::BadEvent { bytes } => host.bad_event(bytes),
             StepIn::BadResponse { o, bytes } => host.bad_response(*o, bytes),
         }));
@@ -679,7 +708,7 @@ pub fn run_case(case: &Case) -> Vec<Value> {
                             k.1 += 1;
                         }
                     }
-                    StepIn::Drop { o } => known.ops.retain(|k| k.0 != *o),
+                    StepIn::Drop { o, .. } => known.ops.retain(|k| k.0 != *o),
                     _ => {}
                 }
                 Some(obs.line)
@@ -701,6 +730,7 @@ pub fn run_case(case: &Case) -> Vec<Value> {
         if dead {
             break;
         }
+        host.set_notake(false);
         if let Some(l) = do_step(&mut host, &mut known, step) {
             dead = l["e"] == "panic";
             lines.push(l);
@@ -713,6 +743,7 @@ pub fn run_case(case: &Case) -> Vec<Value> {
         while n < pol.max && !dead {
             n += 1;
             let x: f64 = rng.random();
+            host.set_notake(pol.p_batch > 0.0 && n < pol.max && rng.random::<f64>() < pol.p_batch);
             if rng.random::<f64>() < pol.p_bad {
                 if let Some((evs, resp)) = host.seeds() {
                     let as_event = known.ops.is_empty() || rng.random::<bool>();
@@ -740,7 +771,7 @@ pub fn run_case(case: &Case) -> Vec<Value> {
                 StepIn::Noop
             } else if x < pol.p_run + pol.p_noop + pol.p_abort && !host.abortable().is_empty() {
                 let a = host.abortable();
-                StepIn::Abort { c: a[rng.random_range(0..a.len())] }
+                StepIn::Abort { c: a[rng.random_range(0..a.len())], nt: false }
             } else if known.ops.is_empty() {
                 break;
             } else {
@@ -754,9 +785,9 @@ pub fn run_case(case: &Case) -> Vec<Value> {
                 };
                 let (o, k) = known.ops[i];
                 if host.can_drop() && rng.random::<f64>() < pol.p_drop {
-                    StepIn::Drop { o }
+                    StepIn::Drop { o, nt: false }
                 } else {
-                    StepIn::Resolve { o, val: k + 1 }
+                    StepIn::Resolve { o, val: k + 1, nt: false }
                 }
             };
             if let Some(l) = do_step(&mut host, &mut known, &step) {
